@@ -108,7 +108,9 @@ def scriptLabels (n : Nat) : List Label :=
   (List.range (n + 1)).map Lb.Label.alpha ++ ['x', 'ρ', 'σ', Char.ofNat 0x1D711].map .greek ++
     ["foo", "hello", "βγ", "abcdefgh", "a-b"].map (fun s => .str (Lb.pad8 s.toList)) ++
     -- labels that look like the other kinds of argument: a variable in use, an unknown variable, a vertex, a number
-    [Lb.Label.greek '$'] ++ ["$a", "$b", "$zz", "ν1", "42"].map (fun s => .str (Lb.pad8 s.toList))
+    [Lb.Label.greek '$'] ++ ["$a", "$b", "$zz", "ν1", "42"].map (fun s => .str (Lb.pad8 s.toList)) ++
+    -- words of 2-8 characters that are longer than 8 bytes in UTF-8 (Cyrillic, CJK, 4-byte characters)
+    ["привет", "тест", "жизнь12", "日本語", "数据结构算法", "𝜑𝜑𝜑", "ÀÉÎÕÜàéî"].map (fun s => .str (Lb.pad8 s.toList))
 
 def varNames : List (List Char) := ["a", "b", "x1", "ν", "v_2", "Δ", ""].map String.toList
 
